@@ -283,6 +283,27 @@ def summary_obligations(repo, chk, corrected, oid, report_kinds):
     return I, cs
 
 
+def _only_summaries_compared(t):
+    """the predicate reads the two vectors ONLY through order-insensitive summaries (histograms, sorted copies): with the summary calls cut out,
+    neither vector is left in the term"""
+    def is_summary(x):
+        return isinstance(x, tuple) and len(x) >= 2 and x[0] == 'call' and isinstance(x[1], tuple) and (
+            (x[1][0] == 'lib' and (str(x[1][1]).endswith('.numba_unique') or str(x[1][1]) in ('numpy.unique', 'numpy.bincount', 'numpy.sort', 'numpy.histogram', 'collections.Counter')))
+            or x[1] == ('name', 'sorted'))
+    found = [False]
+
+    def cut(x):
+        if is_summary(x):
+            found[0] = True
+            return ('summary',)
+        if isinstance(x, tuple):
+            return tuple(cut(y) for y in x)
+        return x
+    rest = cut(t)
+    left = any(y in (('role', 'X'), ('role', 'Y')) for y in _walk_terms(rest))
+    return found[0] and not left
+
+
 def labelling_obligations(repo, chk, oid):
     """For the relabelling property: the kernel summary (both the plain and the corrected path) must be a sum over VALUE domains in which codes are
     only compared with codes of the same vector and tables are read at the position of their own value.  Reported: the defect kinds that make the
@@ -447,6 +468,9 @@ def self_pair_test(repo, chk, oid):
             chk.bad(oid + 'a', 'identity-test', fn.site(g), ast.unparse(g.test), 'the self-pair test is a reduction that can cancel (equal sums / histograms do not imply identical vectors): two different vectors whose codes merely add up to the same total lose the correction, and the outcome depends on the numeric codes')
         elif any(isinstance(x, tuple) and x and x[0] == 'cmp' and x[1] in ('<', '<=') for x in _walk_terms(t)):
             chk.bad(oid + 'a', 'identity-test', fn.site(g), ast.unparse(g.test), 'the self-pair test uses an inequality / tolerance: non-identical vectors are treated as a self-pair')
+        elif _only_summaries_compared(t):
+            chk.bad(oid + 'a', 'identity-test', fn.site(g), ast.unparse(g.test), 'the self-pair test compares order-insensitive summaries of the two vectors (their histograms / sorted values), not the vectors: every '
+                    'permutation of a vector has the same histogram, so two different vectors are treated as a self-pair and lose the cardinality correction')
         else:
             why_partial = None
             for x in _walk_terms(t):
